@@ -10,7 +10,8 @@ Two ties to the code, both re-established on every run:
      property file) fail, while ThreadImpl.v keeps marked placeholders so that (B) still runs;
  (B) the `thr` stream: harness/drv_thr.c built with -fsanitize=thread -DENABLE_THREADING,
      one freshly forked process per case; N in {2,4,8,16} threads on shared nodes with exact
-     final bookkeeping, racing first use of the key hash, disjoint trees.
+     final bookkeeping, the same while another thread changes the node's count through
+     container paths (destroying / emptying / overwriting a container that holds it), racing first use of the key hash, disjoint trees.
 """
 import os, sys
 
@@ -28,7 +29,9 @@ TECHNIQUE = ("Coq proof over ALL schedules of an interleaving semantics (ThreadP
              "with exact reference-count bookkeeping and racing first use of the hash seed")
 RULE = ("rc cases: N in {2,4,8,16} workers x K in 50..100000 pseudo-random get/put on 1..4 shared nodes, three ways of "
         "releasing the creator's reference (after join / racing / handed to a worker), 0..3 extra references checked exactly "
-        "after the join; seed cases: N threads released by a barrier on the first use of the key hash in a fresh process, "
+        "after the join; cont cases: one thread hands references to its own array/object and lets the library release them "
+        "(put of the container, array_del_idx, array_put_idx, object_del, object_add replacing) while N workers get/put the "
+        "member directly; seed cases: N threads released by a barrier on the first use of the key hash in a fresh process, "
         "random keys; seedx cases: the same with the first results of json_c_get_random_seed scripted (sentinel -1 first / "
         "throughout the racing phase / interleaved, 0, INT_MIN, INT_MAX, repeated values); trees cases: N threads on disjoint trees vs a sequential run.  A case is non-trivial when it ran to "
         "its observation; distinct = distinct (kind, N, mode/M/L or R, size bucket, seed)")
@@ -111,6 +114,8 @@ def extra_coverage():
 
 # ------------------------------------------------------------------ generator
 MODES = ["join", "race", "hand"]
+CONT_OPS = ["putc_arr", "putc_obj", "adel", "aput", "odel", "oadd"]
+ARRAY_OPS, OBJECT_OPS = ["putc_arr", "adel", "aput"], ["putc_obj", "odel", "oadd"]
 
 
 def rand_key(rng):
@@ -167,6 +172,12 @@ def gen(rng, tier):
                         {"kind": "rc-" + mode}))
     if quick:
         out.append(("thr rc 16 100000 1 race 1 %d" % rng.randrange(1, 1 << 20), {"kind": "rc-race"}))
+    # --- counts changed by container paths (destroy / empty / overwrite a container holding the
+    #     node) in one thread while the others get/put the node directly
+    for op in CONT_OPS + ["mix"]:
+        for n in ((rng.choice([2, 4]), rng.choice([8, 16])) if quick else (2, 4, 8, 16)):
+            out.append(("thr cont %d %d %s %d %d" % (n, rng.choice([500, 2000, 6000]), op, rng.choice([200, 1000, 3000]),
+                                                    rng.randrange(1, 1 << 20)), {"kind": "cont-" + op}))
     # --- racing first use of the key hash
     for n in (2, 4, 8, 16):
         for _ in range(3 if quick else 60):
@@ -210,7 +221,7 @@ def oracle(line, meta, impl):
     """direct, model-independent: exact counts demanded by the property text"""
     if "CRASH" in impl:
         if "tsan:race" in impl:
-            return ("tsan-race", "ThreadSanitizer report (data race / misuse) in the threaded build: " + impl)
+            return ("tsan-race", "ThreadSanitizer report (data race / misuse) in the threaded build on `%s`: %s" % (" ".join(line.split(" ")[:5]), impl.strip()))
         return ("crash", "implementation crashed: " + impl)
     if impl in ("MISSING", "BADLINE", "FORKFAIL", "NODOMAIN"):
         return ("malformed", "no observation: " + impl)
@@ -229,6 +240,18 @@ def oracle(line, meta, impl):
             return ("early-destroy", "%d node(s) destroyed while references were still owned (or not destroyed at the last release)" % d["early"])
         if d["destroyed"] != m or d["put1"] != m:
             return ("destroy-count", "%d nodes: delete callback ran %d times, json_object_put returned 1 %d times (want exactly once each)" % (m, d["destroyed"], d["put1"]))
+        return None
+    if a[1] == "cont":
+        if d.get("kind") != "cont":
+            return ("malformed", "unexpected driver output: " + impl[:120])
+        where = "container path %s in one thread, %s workers get/put the member directly" % (a[4], a[2])
+        if d["lost"] != 0:
+            return ("lost-update", "%s: after the join the member's count is off by %d" % (where, d["lost"]))
+        if d["early"] != 0:
+            return ("early-destroy", "%s: the member was destroyed while a reference was still owned" % where)
+        if d["destroyed"] != 1 or d["put1"] != 1:
+            return ("destroy-count", "%s: delete callback ran %d times, the last json_object_put returned 1 %d times (want 1, 1)"
+                    % (where, d["destroyed"], d["put1"]))
         return None
     if a[1] in ("seed", "seedx"):
         n = int(a[2])
@@ -262,6 +285,9 @@ def nontrivial(line, meta, impl):
     _stats["cases"] += 1
     if impl.endswith("volrd 1"):
         _stats["volrd_cases"] += 1
+    if a[1] == "cont":
+        _stats["ops"] += int(a[2]) * int(a[3]) + 2 * int(a[5])
+        return tuple(a[1:])
     if a[1] == "rc":
         _stats["ops"] += int(a[2]) * int(a[3])
         return ("rc", a[2], a[4], a[5], a[6], len(a[3]), a[7])
@@ -306,10 +332,36 @@ def shrink_seedx(ck, a, cls):
     return " ".join(best)
 
 
+def shrink_cont(ck, a, cls):
+    """fewer workers / iterations; a `mix` is replaced by the single path that still fails"""
+    best = a
+    if best[4] == "mix":
+        for op in CONT_OPS:
+            c = best[:4] + [op] + best[5:]
+            if _fails(ck, " ".join(c), cls, tries=2):
+                best = c
+                break
+    for _ in range(6):
+        n, k, c = int(best[2]), int(best[3]), int(best[5])
+        cand = None
+        for t in ([best[:2] + [str(max(1, n // 2))] + best[3:]] if n > 1 else []) + \
+                 ([best[:3] + [str(max(50, k // 4))] + best[4:]] if k > 50 else []) + \
+                 ([best[:5] + [str(max(20, c // 4))] + best[6:]] if c > 20 else []):
+            if _fails(ck, " ".join(t), cls):
+                cand = t
+                break
+        if cand is None:
+            break
+        best = cand
+    return " ".join(best)
+
+
 def shrink(ck, line, cls):
     a = line.split(" ")
     if a[1] == "seedx" and len(a) == 6:
         return shrink_seedx(ck, a, cls)
+    if a[1] == "cont":
+        return shrink_cont(ck, a, cls)
     if a[1] != "rc":
         return line
     best = a
@@ -332,6 +384,21 @@ def shrink(ck, line, cls):
 def search(rng, broken_lines):
     """proof or correspondence broke: heavier stress looking for a concrete failing run"""
     out = []
+    # the translator names the functions that change the count outside json_object_get/put:
+    # exercise the public paths that reach them first, with many iterations and several seeds
+    ops = []
+    for st in _tr_info.get("stray", []):
+        frm = set(st.get("reachable_from", [])) | {st.get("function", "")}
+        if any(f.startswith("json_object_new_array") or "array" in f for f in frm):
+            ops += ARRAY_OPS
+        if any(f.startswith("json_object_new_object") or "lh_entry" in f or "object_object" in f for f in frm):
+            ops += OBJECT_OPS
+        if not ops:
+            ops += CONT_OPS
+    for op in sorted(set(ops), key=CONT_OPS.index):
+        for n in (2, 8, 16):
+            for _ in range(2):
+                out.append(("thr cont %d 20000 %s 10000 %d" % (n, op, rng.randrange(1, 1 << 20)), {"kind": "cont-" + op}))
     for mode in MODES:
         for n in (16, 8, 4, 2):
             out.append(("thr rc %d %d 1 %s %d %d" % (n, 60000, mode, rng.choice([0, 2]), rng.randrange(1, 1 << 20)), {"kind": "rc-" + mode}))
